@@ -373,6 +373,7 @@ fn visit_t<'a, T: Ty<'a>>(ctx: &Ctx, b: &'a [u8], n: usize, pol: Option<usize>) 
             None => {
                 o.push(format!("part={}", oracle::part::<T>(b, &res)));
                 o.push(format!("self={}", oracle::self_consistency::<T>(b, n, &res, &rec.evs)));
+                o.push(format!("indep={}", oracle::suffix_independence::<T>(b, n, &res, &rec.evs)));
                 o.push(format!("pfx={}", oracle::prefix_sweep::<T>(ctx, b, n)));
                 o.push(format!("rb={}", oracle::rb(T::NAME, b, n, &res.as_ref().map(|pr| pr.consumed()).map_err(|e| e.clone()), &line)));
             }
